@@ -97,21 +97,10 @@ def ignoreSearch : List Char → Bool
   | [] => false
   | c :: r => ignoreAt (c :: r) || ignoreSearch r
 
-/-- the skip-file pattern of `main.format_code`: `#\s*pyrefact\s*:\s*skip_file` -/
-def skipFileAt (l : List Char) : Bool :=
-  match l with
-  | '#' :: r =>
-    let r := skipSpace r
-    if isPrefixChars "pyrefact".toList r then
-      match skipSpace (r.drop 8) with
-      | ':' :: r2 => isPrefixChars "skip_file".toList (skipSpace r2)
-      | _ => false
-    else false
-  | _ => false
-
+/-- the skip-file test of `main.format_code`: the literal text `# pyrefact: skip_file` occurs -/
 def skipFileSearch : List Char → Bool
   | [] => false
-  | c :: r => skipFileAt (c :: r) || skipFileSearch r
+  | c :: r => isPrefixChars "# pyrefact: skip_file".toList (c :: r) || skipFileSearch r
 
 /-- `core.has_ignore_comment(source, rng)`: some physical line overlapping `rng` matches -/
 def ignoredFrom (rng : Rng) : Nat → List (List Char) → Bool
